@@ -3,18 +3,18 @@
    Level 2 (Refine): the byte-level merge of a snapshot DBI (as LoadOnce runs it) computes that join key by key,
    and a dumped entry denotes exactly the stored version. Tomb sweeper disabled (cutoff 0), as the property says. *)
 From LS Require Import Base.Bytes Base.Res Header.Model Merge.Model Merge.Version Merge.Order Merge.Proofs Merge.Fold
-  Strategy.Model Strategy.Order Strategy.Proofs Shadow.Model Shadow.Proofs Fleet.Model Fleet.Proofs Fleet.Refine.
+  Strategy.Model Strategy.Order Strategy.Proofs Shadow.Model Shadow.Proofs Fleet.Model Fleet.Proofs Fleet.Refine Corr.Run_fleet Fleet.Replay.
 Open Scope N_scope.
 
 (* convergence: in every reachable quiescent state every instance holds, for every key, a version that
    (a) is at least as new as every version ever written anywhere, (b) is itself one of the written versions,
    hence is THE last-writer-wins winner, and (c) is identical on all instances *)
-Theorem C01_convergence : forall (K : Type) (K_eq_dec : forall a b : K, {a = b} + {a <> b}) s,
-  freach K K_eq_dec (finit K) s -> quiescent K s ->
-  forall i k,
+Theorem C01_convergence : forall (K : Type) (K_eq_dec : forall a b : K, {a = b} + {a <> b}) n s,
+  freach K K_eq_dec (finit K) s -> quiescent K n s ->
+  forall i k, (i < n)%nat ->
     (forall v, written_k K s k v -> ole (Some v) (st K s i k)) /\
     from_written K s (st K s i k) k /\
-    (forall j, st K s i k = st K s j k).
+    (forall j, (j < n)%nat -> st K s i k = st K s j k).
 Proof. exact convergence. Qed.
 Print Assumptions C01_convergence.
 
@@ -25,9 +25,12 @@ Proof. exact winner_unique. Qed.
 Theorem C01_total : forall a b, wins a b = false -> wins b a = false -> a = b.
 Proof. exact wins_total. Qed.
 
-(* no instance ever moves a key backwards, whatever happens *)
+(* no instance ever moves a key backwards, whatever happens — short of losing that instance's LMDB itself
+   (f_reset: restart under the same name with an emptied or rolled-back LMDB; convergence above covers it) *)
 Theorem C01_monotone : forall (K : Type) (K_eq_dec : forall a b : K, {a = b} + {a <> b}) s s',
-  fstep K K_eq_dec s s' -> forall i k, ole (st K s i k) (st K s' i k).
+  fstep K K_eq_dec s s' ->
+  forall i, (forall k, ole (st K s i k) (st K s' i k)) \/
+            (exists g, s' = mkSys K (upd_inst K (st K s) i g) (snaps K s) (written K s)).
 Proof. exact stores_monotone. Qed.
 Print Assumptions C01_monotone.
 
@@ -96,7 +99,51 @@ Proof.
     + apply (f_write nat Nat.eq_dec _ 1%nat 7%nat (mkVer 5 false [97])). exact I.
     + apply (f_upload nat Nat.eq_dec _ 0%nat).
     + apply (f_upload nat Nat.eq_dec _ 1%nat).
-    + eapply (f_merge nat Nat.eq_dec _ 0%nat). left. reflexivity.
-    + eapply (f_merge nat Nat.eq_dec _ 1%nat). right. left. reflexivity.
+    + eapply (f_merge nat Nat.eq_dec _ 0%nat). right. left. reflexivity.
+    + eapply (f_merge nat Nat.eq_dec _ 1%nat). left. reflexivity.
   - split; vm_compute; reflexivity.
+Qed.
+
+(* the executable replay of the correspondence check (Corr/Run_fleet.v) only produces states of this proven
+   system: the histories real fleets are compared on are paths of fstep *)
+Theorem C01_replay_is_reachable : forall l s,
+  frun (finit Run_fleet.K) l = Some s -> freach Run_fleet.K Run_fleet.K_eq_dec (finit Run_fleet.K) s.
+Proof. exact frun_init_reach. Qed.
+Print Assumptions C01_replay_is_reachable.
+
+(* non-vacuity of C01_convergence, with a RESET on the way: instance 0 writes and uploads, loses its LMDB, writes
+   another key before its old data is back, merges its own old snapshot, uploads; instance 1 merges, uploads;
+   instance 0 merges: the state is reachable AND quiescent for the fleet {0, 1} *)
+Definition v7 := mkVer 5 false [98].
+Definition u8 := mkVer 9 false [99].
+
+Example C01_reset_example :
+  exists s, freach bool Bool.bool_dec (finit bool) s /\ quiescent bool 2 s /\
+            st bool s 0%nat true = Some v7 /\ st bool s 1%nat false = Some u8.
+Proof.
+  eexists. split.
+  - eapply fr_step. eapply fr_step. eapply fr_step. eapply fr_step. eapply fr_step. eapply fr_step.
+    eapply fr_step. eapply fr_step. eapply fr_step. apply fr_init.
+    + apply (f_write bool Bool.bool_dec _ 0%nat true v7). exact I.
+    + apply (f_upload bool Bool.bool_dec _ 0%nat).
+    + apply (f_reset bool Bool.bool_dec _ 0%nat (fun _ => None)). intros k. exact I.
+    + apply (f_write bool Bool.bool_dec _ 0%nat false u8). vm_compute. exact I.
+    + eapply (f_merge bool Bool.bool_dec _ 0%nat). left. reflexivity.
+    + apply (f_upload bool Bool.bool_dec _ 0%nat).
+    + eapply (f_merge bool Bool.bool_dec _ 1%nat). right. left. reflexivity.
+    + apply (f_upload bool Bool.bool_dec _ 1%nat).
+    + eapply (f_merge bool Bool.bool_dec _ 0%nat). right. right. left. reflexivity.
+  - split; [|split; vm_compute; reflexivity].
+    split.
+    + cbn [written]. intros j k v [E|[E|[]]]; inversion E; subst; lia.
+    + intros i j Hi Hj.
+      assert (Hc : (i = 0 \/ i = 1)%nat) by lia. assert (Hd : (j = 0 \/ j = 1)%nat) by lia.
+      destruct Hd as [-> | ->].
+      * (* newest snapshot of 0: the second upload of 0 *)
+        eexists. split; [right; left; reflexivity|]. split; [reflexivity|]. split.
+        -- cbn [written]. intros k v [E|[E|[]]]; inversion E; subst; vm_compute; left; reflexivity.
+        -- intros k. destruct Hc as [-> | ->]; destruct k; vm_compute; left; reflexivity.
+      * eexists. split; [right; right; left; reflexivity|]. split; [reflexivity|]. split.
+        -- cbn [written]. intros k v [E|[E|[]]]; inversion E.
+        -- intros k. destruct Hc as [-> | ->]; destruct k; vm_compute; left; reflexivity.
 Qed.
